@@ -218,6 +218,15 @@ func (d *c17def) rep(k string) string {
 	return best
 }
 
+func (d *c17def) deviceBuildable() bool {
+	for _, l := range d.levels {
+		if l.witness == "" {
+			return false
+		}
+	}
+	return len(d.levels) > 0
+}
+
 func (d *c17def) allChecks() bool { return d.checks != "" && !strings.Contains(d.checks, "0") }
 
 func (d *c17def) label() string {
@@ -498,6 +507,33 @@ func c17fields(c *ctx, d *c17def, verbose bool) {
 		c.res.Fail("correspondence", caseLine, fmt.Sprintf("%s: network.Driver fields differ from the generated definition\n impl : %s\n model: %s",
 			d.label(), drv, want), "driver-fields-differ:"+d.label())
 	}
+	// oracle: the driver reflects the definition file, re-parsed here independently of the model
+	// (levels, default level, failure strings; a variant's sections where it defines them)
+	facts.Repo = repoDir()
+	if pd, err := facts.LoadPlatformFile(d.file); err == nil && pd.Default != nil {
+		eff := *pd.Default
+		if v := pd.Variants[d.variant]; d.variant != "" && v != nil {
+			if len(v.PrivilegeLevels) > 0 {
+				eff.PrivilegeLevels = v.PrivilegeLevels
+			}
+			if v.DefaultDesired != "" {
+				eff.DefaultDesired = v.DefaultDesired
+			}
+			if len(v.FailedWhenContains) > 0 {
+				eff.FailedWhenContains = v.FailedWhenContains
+			}
+		}
+		lv := map[string]*network.PrivilegeLevel{}
+		for k, l := range eff.PrivilegeLevels {
+			lv[k] = &network.PrivilegeLevel{Name: l.Name, Pattern: l.Pattern, NotContains: l.NotContains, PreviousPriv: l.PreviousPriv,
+				Deescalate: l.Deescalate, Escalate: l.Escalate, EscalateAuth: l.EscalateAuth, EscalatePrompt: l.EscalatePrompt}
+		}
+		file := "pl=" + c17levelsCanon(lv) + " dd=" + c17hex(eff.DefaultDesired) + " fw=" + c17listCanon(eff.FailedWhenContains)
+		if drv != file {
+			c.res.Fail("oracle", caseLine, fmt.Sprintf("%s: the driver built by the platform does not carry the definition's levels / default level / failure strings\n driver: %s\n file  : %s",
+				d.label(), drv, file), "driver-does-not-reflect-definition:"+d.label())
+		}
+	}
 	if nd.OnOpen == nil && len(d.noo) > 0 || nd.OnClose == nil && len(d.noc) > 0 {
 		c.res.Fail("correspondence", caseLine, d.label()+": network on-open/on-close steps defined but the driver has no OnOpen/OnClose", "onx-missing:"+d.label())
 	}
@@ -649,8 +685,11 @@ type c17dev struct {
 	pending string
 }
 
-func c17newDev(d *c17def, start, secret string) *c17dev {
+func c17newDev(d *c17def, start, secret string, seg int) *c17dev {
 	dev := &c17dev{cli: sim.NewCLI(), d: d, secret: secret}
+	if seg > 0 {
+		dev.cli.Seg = sim.SegFixed(seg)
+	}
 	dev.cli.Mode = start
 	dev.cli.Prompt = func(cl *sim.CLI) string {
 		if l := d.byKey[cl.Mode]; l != nil {
@@ -752,13 +791,13 @@ type c17sessOut struct {
 	didAcquire                    bool
 }
 
-func c17runSession(d *c17def, cur, tgt string, auth bool) *c17sessOut {
+func c17runSession(d *c17def, cur, tgt string, auth bool, seg int) *c17sessOut {
 	out := &c17sessOut{}
 	secret := ""
 	if auth {
 		secret = c17secret
 	}
-	dev := c17newDev(d, cur, secret)
+	dev := c17newDev(d, cur, secret, seg)
 	done := make(chan struct{})
 	var mu sync.Mutex
 	snap := func() (string, int) {
@@ -924,18 +963,24 @@ func (d *c17def) observe(ls []sim.LineEvent, exp []c17expLine) string {
 	return ""
 }
 
-func c17session(c *ctx, d *c17def, cur, tgt string, auth bool, verbose bool) {
-	caseLine := fmt.Sprintf("c17sess %s %s %s %s %d", d.file, map[bool]string{true: "-", false: d.variant}[d.variant == ""], cur, tgt,
-		map[bool]int{true: 1, false: 0}[auth])
-	o := c17runSession(d, cur, tgt, auth)
+func c17sessLine(d *c17def, cur, tgt string, auth bool, seg int) string {
+	return fmt.Sprintf("c17sess %s %s %s %s %d %d", d.file, map[bool]string{true: "-", false: d.variant}[d.variant == ""], cur, tgt,
+		map[bool]int{true: 1, false: 0}[auth], seg)
+}
+
+func c17session(c *ctx, d *c17def, cur, tgt string, auth bool, seg int, verbose bool) {
+	caseLine := c17sessLine(d, cur, tgt, auth, seg)
+	o := c17runSession(d, cur, tgt, auth, seg)
 	c17judge(c, d, cur, tgt, auth, o, caseLine, verbose)
 }
 
 func c17judge(c *ctx, d *c17def, cur, tgt string, auth bool, o *c17sessOut, caseLine string, verbose bool) {
-	// in the property's quantifier: the definition satisfies the proved checks, and the device
-	// starts in the representative of a prompt class (indistinguishable levels count as one)
+	// in the property's quantifier: a device can be built from the definition (every level has a
+	// canonical prompt), and it starts in the representative of a prompt class (indistinguishable
+	// levels count as one). A definition that fails one of the proved checks is still driven: the
+	// session then shows the failing input behind the broken obligation.
 	isRep := d.rep(cur) == cur
-	dom := d.allChecks() && isRep
+	dom := d.deviceBuildable() && isRep
 	c.res.Case(caseLine, cur != tgt)
 	if dom {
 		c.res.InDomain++
@@ -953,6 +998,7 @@ func c17judge(c *ctx, d *c17def, cur, tgt string, auth bool, o *c17sessOut, case
 	}
 	hops := len(d.treePath(cur, tgt)) - 1
 	c.res.Count(fmt.Sprintf("session:hops=%d", hops))
+	c.res.Count("session:" + caseLine[strings.LastIndex(caseLine, " ")+1:] + "-byte-reads(0=whole)")
 	if auth {
 		c.res.Count("session:secret")
 	}
@@ -962,7 +1008,7 @@ func c17judge(c *ctx, d *c17def, cur, tgt string, auth bool, o *c17sessOut, case
 	}
 	kind := "oracle"
 	if !dom {
-		return // outside the theorems' hypotheses: the definition itself is already reported by the proofs
+		return
 	}
 	fail := func(sig, f string, a ...any) {
 		c.res.Fail(kind, caseLine, fmt.Sprintf("%s start=%s target=%s secret=%v: ", d.label(), cur, tgt, auth)+fmt.Sprintf(f, a...)+
@@ -1266,6 +1312,28 @@ func (s *c17sec) tokens() []string {
 		steps(s.nooP, s.noo), steps(s.nocP, s.noc), opt}
 }
 
+// specMerge is the property's own statement, computed without the model: a section of the result
+// is the variant's when the variant defines it (non-empty string, non-empty failure list or level
+// map, step list present even if empty), otherwise the base's; options stay the base's.
+func c17specMerge(base, v []string) []string {
+	out := append([]string{}, base...)
+	for i := 0; i < 8; i++ { // the eight sections; index 8 = options
+		defined := false
+		switch i {
+		case 0, 5:
+			defined = v[i] != "-"
+		case 1, 4:
+			defined = v[i] != "."
+		default:
+			defined = v[i] != "nil"
+		}
+		if defined {
+			out[i] = v[i]
+		}
+	}
+	return out
+}
+
 func c17platformTokens(p *platform.Platform) string {
 	c := c17platformCanon(p)
 	var out []string
@@ -1282,6 +1350,7 @@ type c17mergeCase struct {
 	variants map[string]*c17sec
 	use      string // "" = NewPlatform, else variant name (may be missing)
 	line     string
+	spec     string
 }
 
 func c17genMerge(seed uint64) *c17mergeCase {
@@ -1340,6 +1409,7 @@ func c17merge(c *ctx, seeds []uint64, verbose bool) {
 			}
 		}
 		mc.line = "c17 merge " + strings.Join(mc.base.tokens(), " ") + " " + strings.Join(v, " ")
+		mc.spec = strings.Join(c17specMerge(mc.base.tokens(), v), " ")
 		lines = append(lines, mc.line)
 		cases = append(cases, mc)
 	}
@@ -1382,11 +1452,84 @@ func c17merge(c *ctx, seeds []uint64, verbose bool) {
 		if verbose {
 			fmt.Printf("%s use=%q\n%s\n impl : %s\n model: %s\n", caseLine, mc.use, mc.yaml, impl, model)
 		}
+		// oracle: the sections of the returned platform against the property's statement
+		if err == nil && pmsg == "" && (mc.use == "" || has) {
+			if got := c17platformTokens(p); got != mc.spec {
+				c.res.Fail("oracle", caseLine, fmt.Sprintf("variant %q does not replace exactly the sections it defines\n result: %s\n spec  : %s\n yaml:\n%s",
+					mc.use, got, mc.spec, mc.yaml), "variant-merge-wrong-sections")
+			}
+			if !strings.HasPrefix(ans[i], mc.spec+" ") && !strings.HasSuffix(ans[i], "err=badoption") {
+				c.res.Fail("machinery", caseLine, "model mergeVariant differs from the section-wise statement: "+ans[i]+" vs "+mc.spec, "merge-model-vs-spec")
+			}
+		}
 		if impl != model {
 			// a level map whose links are broken makes network.NewDriver panic; the generator
 			// only builds valid trees, so any panic here is a finding
 			c.res.Fail("correspondence", caseLine, fmt.Sprintf("NewPlatform/NewPlatformVariant(variant %q) on a random definition differs from mergeVariant+setDriver\n impl : %s\n model: %s\n yaml:\n%s",
 				mc.use, impl, model, mc.yaml), "merge-differs")
+		}
+	}
+}
+
+// ---- malformed stream: broken level maps --------------------------------------------------------
+
+// c17graph feeds definitions whose level maps are mostly NOT trees (unknown parent, key != name,
+// two roots, cycles) to the real NewPlatform and compares "network.NewDriver panics in
+// buildPrivGraph" with the model's graphBuildable; theorem tree_definitions_build_graph says which
+// definitions are safe. Outside the property's quantifier (no embedded definition is like this).
+func c17graph(c *ctx, seeds []uint64, verbose bool) {
+	type gcase struct {
+		seed uint64
+		yaml string
+	}
+	var lines []string
+	var cases []gcase
+	for _, sd := range seeds {
+		r := vlib.NewRng(sd)
+		pool := []string{"exec", "privilege-exec", "configuration", "shell"}
+		n := r.Range(1, 4)
+		var b strings.Builder
+		b.WriteString("---\nplatform-type: 'c17_graph'\ndefault:\n  driver-type: 'network'\n  privilege-levels:\n")
+		var toks []string
+		for i := 0; i < n; i++ {
+			key, name := pool[i], pool[i]
+			if r.Chance(1, 6) {
+				name = pool[i] + "-x"
+			}
+			prev := ""
+			switch r.Intn(6) {
+			case 0:
+				prev = "ghost"
+			case 1:
+				prev = ""
+			case 2:
+				prev = pool[r.Intn(n)] // may be itself or a later level: cycles
+			default:
+				if i > 0 {
+					prev = pool[r.Intn(i)]
+				}
+			}
+			fmt.Fprintf(&b, "    %s:\n      name: %s\n      pattern: %s\n      previous-priv: %s\n      escalate: %s\n      deescalate: 'exit'\n",
+				key, yq(name), yq(`(?im)^h`+strconv.Itoa(i)+`#$`), yq(prev), yq("go "+key))
+			toks = append(toks, c17hex(key)+"/"+c17hex(name)+"/"+c17hex(prev))
+		}
+		fmt.Fprintf(&b, "  default-desired-privilege-level: %s\n", yq(pool[0]))
+		lines = append(lines, "c17 graph "+strings.Join(toks, ","))
+		cases = append(cases, gcase{sd, b.String()})
+	}
+	ans := c.ask(lines)
+	for i, g := range cases {
+		caseLine := fmt.Sprintf("c17graph %d", g.seed)
+		c.res.Case(caseLine, false)
+		_, err, pmsg := c17new([]byte(g.yaml), "", c17baseOpts(sim.NewPipe())...)
+		buildable := strings.Contains(ans[i], "graph=1")
+		c.res.Count("malformed-levels:" + map[bool]string{true: "builds", false: "panics"}[pmsg == ""] + " " + ans[i][strings.Index(ans[i], "tree="):])
+		if verbose {
+			fmt.Printf("%s\n%s impl: err=%v panic=%q\n model: %s\n", caseLine, g.yaml, err, pmsg, ans[i])
+		}
+		if (pmsg == "") != buildable || (pmsg == "" && err != nil) {
+			c.res.Fail("correspondence", caseLine, fmt.Sprintf("NewPlatform on a definition with a broken level map: err=%v panic=%q, model %s\n%s", err, pmsg, ans[i], g.yaml),
+				"graph-build-differs")
 		}
 	}
 }
@@ -1451,10 +1594,14 @@ func runC17(c *ctx) {
 			if d := c17find(defs, f[1], f[2]); d != nil {
 				c17fields(c, d, true)
 			}
-		case len(f) == 6 && f[0] == "c17sess":
+		case len(f) == 7 && f[0] == "c17sess":
 			if d := c17find(defs, f[1], f[2]); d != nil {
-				c17session(c, d, f[3], f[4], f[5] == "1", true)
+				seg, _ := strconv.Atoi(f[6])
+				c17session(c, d, f[3], f[4], f[5] == "1", seg, true)
 			}
+		case len(f) == 2 && f[0] == "c17graph":
+			sd, _ := strconv.ParseUint(f[1], 10, 64)
+			c17graph(c, []uint64{sd}, true)
 		case len(f) == 2 && f[0] == "c17merge":
 			sd, _ := strconv.ParseUint(f[1], 10, 64)
 			c17merge(c, []uint64{sd}, true)
@@ -1493,11 +1640,14 @@ func runC17(c *ctx) {
 			}
 		}
 	}
-	reps := 1
+	// read segmentation of the device output: whole, 1 byte per read; thorough adds 3 and 7 (and
+	// every repetition meets another Go map order in the real driver)
+	segs := []int{0, 1}
 	if c.thorough() {
-		reps = 4 // more Go map orders per pair
+		segs = []int{0, 1, 3, 7}
 	}
-	for rep := 0; rep < reps*c.scale; rep++ {
+	for rep := 0; rep < len(segs)*c.scale; rep++ {
+		seg := segs[rep%len(segs)]
 		sem := make(chan struct{}, 16)
 		var wg sync.WaitGroup
 		for _, j := range jobs {
@@ -1505,15 +1655,13 @@ func runC17(c *ctx) {
 			sem <- struct{}{}
 			go func(j *job) {
 				defer wg.Done()
-				j.out = c17runSession(j.d, j.cur, j.tgt, j.auth)
+				j.out = c17runSession(j.d, j.cur, j.tgt, j.auth, seg)
 				<-sem
 			}(j)
 		}
 		wg.Wait()
 		for _, j := range jobs {
-			caseLine := fmt.Sprintf("c17sess %s %s %s %s %d", j.d.file, map[bool]string{true: "-", false: j.d.variant}[j.d.variant == ""], j.cur, j.tgt,
-				map[bool]int{true: 1, false: 0}[j.auth])
-			c17judge(c, j.d, j.cur, j.tgt, j.auth, j.out, caseLine, false)
+			c17judge(c, j.d, j.cur, j.tgt, j.auth, j.out, c17sessLine(j.d, j.cur, j.tgt, j.auth, seg), false)
 		}
 	}
 	c.res.Exhaustive = true
@@ -1525,6 +1673,12 @@ func runC17(c *ctx) {
 		seeds = append(seeds, r.U64()>>1)
 	}
 	c17merge(c, seeds, false)
+	// 6. malformed stream: level maps that are not trees
+	var gseeds []uint64
+	for i := 0; i < c.n(200, 3000); i++ {
+		gseeds = append(gseeds, r.U64()>>1)
+	}
+	c17graph(c, gseeds, false)
 	for i, d := range defs {
 		if i < 3 {
 			c.res.Sample(map[string]any{"definition": d.label(), "levels": len(d.levels), "classes": d.classes, "checks": d.checks})
